@@ -15,6 +15,7 @@ alarms=0
 for d in $D/*/; do
   id=$(basename "$d"); [ -n "$pre" ] && [[ "$id" != $pre* ]] && continue
   [ -f "$d/patch.diff" ] || continue
+  [ -n "$USE_PROPS" ] && [ ! -f "$d/props" ] && continue
   git apply "$d/patch.diff" 2>/dev/null || { echo "$id: patch does not apply"; continue; }
   res=""; pl=$props; [ -f "$d/props" ] && [ -n "$USE_PROPS" ] && pl=$(cat "$d/props")
   for p in $pl; do
